@@ -9,6 +9,14 @@
 (*               short / merged last bins);                                        *)
 (*      "stats": every (x, y, w) triple (length 1..TMaxLen over TVals x TYVals x   *)
 (*               TWts) under a few bin specifications (all moment structures);     *)
+(*      "reps" : a few data arrays x bin specifications x every REPRESENTATION     *)
+(*               triple of the arguments (x, y, weights): element type, byte order,*)
+(*               python list, strided / reversed / record-field view, scalar - the *)
+(*               pairwise-covering design RepDesign, or the full product (RepFull);*)
+(*    every case of the other two families also carries one triple of the design,  *)
+(*    picked by RepIndex from the case itself, so that the design is spread over   *)
+(*    every bin structure.  The representation never changes a VALUE: the          *)
+(*    property-level spec ignores it (that IS the specification of this dimension);*)
 (*  - the mechanisms are run as ACTIONS, one per code step:                        *)
 (*      HistPass                     the histogram pass (Hist.tla; binsize / nbin) *)
 (*      NumPass, NumConvert, NumMerge / NumKeep   Binner._hist_by_num, _merge_last *)
@@ -20,7 +28,8 @@
 (*  - running TLC over the whole space also shows that no 32-bit overflow occurs.  *)
 EXTENDS BinStats, Json
 
-CONSTANTS Kinds,                               \* subset of {"bins", "stats"}
+CONSTANTS Kinds,                               \* subset of {"bins", "stats", "reps"}
+          RepFull,                             \* family "reps": TRUE - full product of representations, FALSE - RepDesign
           MaxLen, Vals, BinSizes, NBinSet, NPerSet, MinVals, MaxVals,
           TMaxLen, TVals, TYVals, TWts,
           FixedWhist,                          \* TRUE: whist of a one-member bin is its weight (repaired code)
@@ -38,6 +47,37 @@ Pow2(k) == IF k = 0 THEN 1 ELSE IF k = 1 THEN 2 ELSE 4
 DeriveY(x) == [i \in DOMAIN x |-> (x[i] * x[i] + 2 * i) % 5]
 DeriveW(x) == [i \in DOMAIN x |-> Pow2((x[i] + i) % 3)]
 
+\* ---- representations of the array arguments ------------------------------------------------
+\* (names are mapped to concrete numpy / python objects by the adapter; "be" = non-native byte order)
+RepSeq == <<"f8", "f8be", "f4", "f4be", "i4", "i8", "i4be", "u1", "list", "strided", "reversed", "recfield", "scalar">>
+NRep   == Len(RepSeq)
+RepOf(t) == [x |-> RepSeq[t[1] + 1], y |-> RepSeq[t[2] + 1], w |-> RepSeq[t[3] + 1]]
+\* orthogonal array of strength 2 (NRep is prime): every pair of representations of every two arguments occurs
+RepDesign  == {<<a, b, (a + b) % NRep>> : a, b \in 0..(NRep - 1)}
+RepProduct == {<<a, b, w>> : a, b, w \in 0..(NRep - 1)}
+RepAt(h)   == LET a == (h % (NRep * NRep)) \div NRep  b == h % NRep IN <<a, b, (a + b) % NRep>>
+\* the design triple a case of the families "bins" / "stats" is run with
+RepIndex(cc) == VSumF(LAMBDA i : cc.x[i] * (2 * i + 1) + cc.y[i] * 3 + cc.w[i] * 5, DOMAIN cc.x) + 17 * cc.b
+                + (IF cc.mode = "binsize" THEN 0 ELSE IF cc.mode = "nbin" THEN 29 ELSE 71) + (IF cc.merge THEN 37 ELSE 0)
+                + (IF cc.hasmin THEN 41 + 7 * cc.min ELSE 0) + (IF cc.hasmax THEN 59 + 11 * cc.max ELSE 0)
+WithRep(cc) == [x |-> cc.x, y |-> cc.y, w |-> cc.w, mode |-> cc.mode, b |-> cc.b, merge |-> cc.merge,
+                hasmin |-> cc.hasmin, min |-> cc.min, hasmax |-> cc.hasmax, max |-> cc.max,
+                rep |-> RepOf(RepAt(RepIndex(cc)))]
+
+\* ---- family "reps" ---------------------------------------------------------------------------
+RepData  == {<<1, 2, 2, 5>>, <<4, 1, 3, 1, 2>>, <<3>>, <<5, 5, 1>>}
+RepModes == {<<"binsize", 2, FALSE, FALSE>>, <<"nbin", 2, FALSE, FALSE>>, <<"nperbin", 2, TRUE, TRUE>>}      \* mode, b, merge, min given
+ChooseRepData ==
+    /\ phase = "start" /\ "reps" \in Kinds
+    /\ \E x \in RepData : c' = [x |-> x, y |-> DeriveY(x), w |-> DeriveW(x)]
+    /\ phase' = "rdata" /\ UNCHANGED st
+ChooseRep ==
+    /\ phase = "rdata"
+    /\ \E m \in RepModes : \E t \in (IF RepFull THEN RepProduct ELSE RepDesign) :
+          c' = [x |-> c.x, y |-> c.y, w |-> c.w, mode |-> m[1], b |-> m[2], merge |-> m[3],
+                hasmin |-> m[4], min |-> IF m[4] THEN 2 ELSE 0, hasmax |-> FALSE, max |-> 0, rep |-> RepOf(t)]
+    /\ phase' = "case" /\ UNCHANGED st
+
 Init == phase = "start" /\ c = NoCase /\ st = NoSt
 
 \* ---- family "bins" ----------------------------------------------------------------------
@@ -52,9 +92,9 @@ Modes == {<<"binsize", b, FALSE>> : b \in BinSizes} \cup {<<"nbin", b, FALSE>> :
 ChooseSpec ==
     /\ phase = "data"
     /\ \E m \in Modes : \E mn \in MinVals \cup {Absent} : \E mx \in MaxVals \cup {Absent} :
-          c' = [x |-> c.x, y |-> c.y, w |-> c.w, mode |-> m[1], b |-> m[2], merge |-> m[3],
-                hasmin |-> mn # Absent, min |-> IF mn = Absent THEN 0 ELSE mn,
-                hasmax |-> mx # Absent, max |-> IF mx = Absent THEN 0 ELSE mx]
+          c' = WithRep([x |-> c.x, y |-> c.y, w |-> c.w, mode |-> m[1], b |-> m[2], merge |-> m[3],
+                        hasmin |-> mn # Absent, min |-> IF mn = Absent THEN 0 ELSE mn,
+                        hasmax |-> mx # Absent, max |-> IF mx = Absent THEN 0 ELSE mx])
     /\ phase' = "case" /\ UNCHANGED st
 
 \* ---- family "stats" ---------------------------------------------------------------------
@@ -68,8 +108,8 @@ TModes == {<<"binsize", 2, FALSE>>, <<"nbin", 2, FALSE>>, <<"nperbin", 2, TRUE>>
 ChooseYW ==
     /\ phase = "sx"
     /\ \E y \in [1..Len(c.x) -> TYVals] : \E w \in [1..Len(c.x) -> TWts] : \E m \in TModes :
-          c' = [x |-> c.x, y |-> y, w |-> w, mode |-> m[1], b |-> m[2], merge |-> m[3],
-                hasmin |-> FALSE, min |-> 0, hasmax |-> FALSE, max |-> 0]
+          c' = WithRep([x |-> c.x, y |-> y, w |-> w, mode |-> m[1], b |-> m[2], merge |-> m[3],
+                        hasmin |-> FALSE, min |-> 0, hasmax |-> FALSE, max |-> 0])
     /\ phase' = "case" /\ UNCHANGED st
 
 \* ---- the mechanisms -----------------------------------------------------------------------
@@ -105,7 +145,7 @@ Assemble ==
     /\ phase = "stats"
     /\ st' = BMechObs(c, st.p, st.bins) /\ phase' = "done" /\ UNCHANGED c
 
-NextExport == ChooseData \/ ChooseSpec \/ ChooseX \/ ChooseYW
+NextExport == ChooseData \/ ChooseSpec \/ ChooseX \/ ChooseYW \/ ChooseRepData \/ ChooseRep
 Next == NextExport \/ HistPass \/ NumPass \/ NumConvert \/ NumMerge \/ NumKeep \/ CalcStats \/ Assemble
 
 NextNoStats == NextExport \/ NumPass \/ NumConvert \/ NumMerge \/ NumKeep      \* self-test of MergeRefines
@@ -151,6 +191,17 @@ MomentsSane == (phase = "case") =>
        /\ SMean(x, [i \in 1..n |-> 4], P) = m                             \* equal weights: the plain mean
        /\ SVar(x, [i \in 1..n |-> 4], P) = BVarPop(x, P)
        /\ SErr2Calc(x, ones, P, m) = RDiv(BVarPop(x, P), RInt(n))         \* unit weights: err2 = err
+
+\* the representation design is pairwise covering: every pair of representations of every two of the three
+\* arguments occurs in some triple; RepAt enumerates exactly the design
+RepDesignCovers == phase = "start" =>
+    /\ \A p, q \in 1..3 : p < q => \A a, b \in 0..(NRep - 1) : \E t \in RepDesign : t[p] = a /\ t[q] = b
+    /\ {RepAt(h) : h \in 0..(NRep * NRep - 1)} = RepDesign
+    /\ Cardinality(VRange(RepSeq)) = NRep
+\* the representation carries no value: the judgement of any observation is the same for every representation
+RepCarriesNoValue == phase = "done" =>
+    \A t \in {<<0, 0, 0>>, <<1, 3, 6>>, <<12, 8, 9>>} :
+        BFailing([c EXCEPT !.rep = RepOf(t)], st) = BFailing(c, st)
 
 \* ---- export -------------------------------------------------------------------------------------
 Export == (DoExport /\ phase = "case") => PrintT(<<"CASE", ToJson(c)>>)
